@@ -1051,6 +1051,30 @@ fn sub_un(env: &Rc<MEnv>, op: &Op, inner: &Node, down: Obs, d: Disp) {
         )
       })
     }
+    Op::WindowCounts(n) => {
+      // a window is opened by its first item and completed by its n-th (its count is
+      // handed on then); the source's completion completes an open window, its error fails it
+      let cnt = Rc::new(Cell::new(0usize));
+      let c2 = cnt.clone();
+      un(env, inner, d, |_| {
+        (
+          move |_p: &P| {
+            cnt.set(cnt.get() + 1);
+            if cnt.get() == n {
+              cnt.set(0);
+              dn.next(&P::I(n as i64));
+            }
+          },
+          move |c| de.error(c),
+          move || {
+            if c2.get() > 0 {
+              dc.next(&P::I(c2.get() as i64));
+            }
+            dc.complete()
+          },
+        )
+      })
+    }
     Op::GroupBy(k) => {
       let k = k.max(1);
       let groups: Rc<RefCell<Vec<i64>>> = Rc::new(RefCell::new(Vec::new()));
@@ -1697,6 +1721,8 @@ struct MShared {
   ncount: RefCell<Vec<usize>>,
   recorders: Vec<Vec<Reaction>>,
   fired: RefCell<Vec<(usize, usize)>>,
+  /// the caller has dropped the pipeline value: nothing can be subscribed any more
+  root_dropped: Cell<bool>,
 }
 
 fn m_react(s1: &Rc<MShared>, k: usize, n: usize) {
@@ -1727,7 +1753,7 @@ fn m_react(s1: &Rc<MShared>, k: usize, n: usize) {
 }
 
 fn m_subscribe(sh: &Rc<MShared>, k: usize) {
-  if sh.started.borrow()[k] {
+  if sh.started.borrow()[k] || sh.root_dropped.get() {
     return;
   }
   sh.started.borrow_mut()[k] = true;
@@ -1887,6 +1913,7 @@ pub fn run_model_opt(case: &Case, conv: Conv, sentinel: bool) -> Result<MResult,
     ncount: RefCell::new(vec![0; nrec]),
     recorders: case.recorders.clone(),
     fired: RefCell::new(Vec::new()),
+    root_dropped: Cell::new(false),
   });
   let mut unsubbed = vec![false; nrec];
   let mut subj_timeline: Vec<Vec<usize>> = Vec::new();
@@ -1902,6 +1929,7 @@ pub fn run_model_opt(case: &Case, conv: Conv, sentinel: bool) -> Result<MResult,
         }
       }
       Action::Advance(_) => {}
+      Action::DropObservable => sh.root_dropped.set(true),
       Action::Connect => {
         if sh.conn.is_some() {
           conn_connect(&sh);
